@@ -294,7 +294,16 @@ func c12c(c *Ctx, v *variants.Variant) {
 		before := p[:iErr]
 		noErrs := before.holds("len(*p.errs)==0")
 		failed := false
-		for _, f := range before.facts() {
+		// … including what the statements before this one established by leaving early (`if ok { return … }`)
+		dominating := factsAt(fd.Body, stmt.Pos())
+		for _, f := range dominating {
+			for _, cj := range splitTop(f, "&&") {
+				if cj == "len(*p.errs)==0" {
+					noErrs = true
+				}
+			}
+		}
+		for _, f := range append(append([]string{}, dominating...), before.facts()...) {
 			if strings.HasPrefix(f, "!") && (dollarRe.MatchString(f) || strings.Contains(f, "res1(") || strings.Contains(f, "ok")) && !strings.Contains(f, "p.debug") && !strings.Contains(f, "p.recover") && !strings.Contains(f, "ok(") {
 				failed = true
 			}
